@@ -39,6 +39,18 @@ CHECKS = {
    "same histories; oracle: an IA_PD asking for exactly a held prefix gets it, a hint-less IA_PD (no IAPrefix or ::/0) gets every held prefix back, lifetimes do not shrink below what remained (one-sided bracket), and at the end fresh clients drain the pool: exactly N - |delegated blocks| must be free (retransmissions consumed nothing, nothing delegated was forgotten).",
    "'for as long as the server runs' = the length of the history (no expiry in the code); length-only hints are outside the statement.",
    "online reference-model monitor with conservation audit + porcupine linearizability check", "4 C08-C09"),
+ "C14": ("sid", "exploration",
+   "32 (quick) / 200 (thorough) accepted server_id spellings, each hosted in a fresh server process; DHCPv6: all 256 message types x 9 kinds of Server Identifier x relay depth 0-2 decided by the RFC 8415 section 16 table; DHCPv4: siaddr x option 54 x DISCOVER/REQUEST matrix; every answered message must carry exactly this server's identifier.",
+   "0.0.0.0 in option 54 is no-crash-only; types the server never answers are expected to stay unanswered.",
+   "decision-table monitor over the full request matrix, one configuration per server process", "4 C14"),
+ "C17": ("opt", "exploration",
+   "160 (quick) / 3072 (thorough) option-plugin configurations from the accepted grammar, each hosted alone in a fresh server process and sent 48 requests (request-list subsets incl. absent, OFFER/ACK, yiaddr assigned or not, option 51 pre-set or not); differential oracle against the same chain without the plugin: exactly the configured value (encoded independently from the RFCs), once, untouched otherwise, chain continues/stops/drops as stated.",
+   "values outside the wire range and duplicate codes in request lists are outside the quantifier; nbp's stop is not asserted.",
+   "differential reference-table monitor (with vs without the plugin), one configuration per server process", "4 C17"),
+ "C19": ("setup", "exploration",
+   "1440 (quick) / 28800 (thorough) argument vectors over all 15 built-in plugins (valid, boundary, invalid values of every argument kind, arity 0-6), each in a fresh server process through plugins.LoadPlugins: setup errors, or 40 requests are survived and every reply parses, re-serialises byte-identically and carries the in-memory response's options.",
+   "pools of 2^25..2^63 blocks (accepted with a warning, need terabytes of bitmap) are excluded as resource exhaustion; truncation that round-trips is an observation.",
+   "crash monitor (process per configuration) + wire round-trip oracle", "4 C19"),
  "C20": ("arith", "exploration",
    "2x10^6 (quick) / 3.8x10^7 (thorough) generated evaluations of Offset (both argument orders), AddPrefixes and the inverse law, each decided by a math/big reference; all p in 0..128, carry/borrow and overflow classes counted in the evidence. Sampling of a 2^320 input space: 'held on what was explored'.",
    "math/big is the definition of the exact result; inputs are 16-byte addresses.",
